@@ -368,3 +368,81 @@ theorem pullRun_current (reduce : List (Option V) → Option V) (n : Nat) (evs :
 
 
 end ScVerif.C17
+
+namespace ScVerif.C17
+
+/-! ## the loop when a Send fails -/
+
+section
+variable [DecidableEq V]
+
+theorem pullFeed_sent (reduce : List (Option V) → Option V) (st : PullSt V) (ev : Nat × List V) :
+    (pullFeed reduce st ev).sent = st.sent ∨ ∃ x, (pullFeed reduce st ev).sent = st.sent ++ [x] := by
+  unfold pullFeed
+  cases ev.2.getLast? with
+  | none => exact Or.inl rfl
+  | some v =>
+    simp only
+    split
+    · exact Or.inl rfl
+    · exact Or.inr ⟨_, rfl⟩
+
+theorem pullFold_sent_prefix (reduce : List (Option V) → Option V) (evs : List (Nat × List V)) (st : PullSt V) :
+    ∃ extra, (evs.foldl (pullFeed reduce) st).sent = st.sent ++ extra := by
+  induction evs generalizing st with
+  | nil => exact ⟨[], by simp⟩
+  | cons ev evs ih =>
+    obtain ⟨extra, he⟩ := ih (pullFeed reduce st ev)
+    rw [List.foldl_cons, he]
+    rcases pullFeed_sent reduce st ev with h | ⟨x, h⟩
+    · exact ⟨extra, by rw [h]⟩
+    · exact ⟨x :: extra, by rw [h]; simp⟩
+
+theorem pullFoldFail_ended (reduce : List (Option V) → Option V) (failAt : Nat) (evs : List (Nat × List V))
+    (st : PullSt V) (k i : Nat) :
+    evs.foldl (pullFeedFail reduce failAt) (st, some k, i) = (st, some k, i) := by
+  induction evs with
+  | nil => rfl
+  | cons ev evs ih => exact ih
+
+theorem pullFoldFail_sent (reduce : List (Option V) → Option V) (failAt : Nat) (hk : failAt ≠ 0)
+    (evs : List (Nat × List V)) (st : PullSt V) (i : Nat) (hlt : st.sent.length < failAt) :
+    (evs.foldl (pullFeedFail reduce failAt) (st, none, i)).1.sent
+        = ((evs.foldl (pullFeed reduce) st).sent).take failAt
+    ∧ ((evs.foldl (pullFeedFail reduce failAt) (st, none, i)).2.1.isSome
+        ↔ failAt ≤ (evs.foldl (pullFeed reduce) st).sent.length) := by
+  induction evs generalizing st i with
+  | nil =>
+    refine ⟨?_, ?_⟩
+    · show st.sent = st.sent.take failAt
+      rw [List.take_of_length_le (by omega)]
+    · show (none : Option Nat).isSome ↔ failAt ≤ st.sent.length
+      simp; omega
+  | cons ev evs ih =>
+    rw [List.foldl_cons, List.foldl_cons]
+    have hlen : (pullFeed reduce st ev).sent.length = st.sent.length
+        ∨ (pullFeed reduce st ev).sent.length = st.sent.length + 1 := by
+      rcases pullFeed_sent reduce st ev with h | ⟨x, h⟩
+      · exact Or.inl (by rw [h])
+      · exact Or.inr (by rw [h]; simp)
+    by_cases hend : (pullFeed reduce st ev).sent.length = failAt
+    · have hstep : pullFeedFail reduce failAt (st, none, i) ev = (pullFeed reduce st ev, some (i + 1), i + 1) := by
+        simp only [pullFeedFail]
+        rw [if_pos ⟨hk, hlt, hend⟩]
+      rw [hstep, pullFoldFail_ended]
+      obtain ⟨extra, he⟩ := pullFold_sent_prefix reduce evs (pullFeed reduce st ev)
+      refine ⟨?_, ?_⟩
+      · show (pullFeed reduce st ev).sent = _
+        rw [he, ← hend, List.take_left']
+        rfl
+      · show (some (i + 1) : Option Nat).isSome ↔ _
+        rw [he]; simp; omega
+    · have hstep : pullFeedFail reduce failAt (st, none, i) ev = (pullFeed reduce st ev, none, i + 1) := by
+        simp only [pullFeedFail]
+        rw [if_neg (fun h => hend h.2.2)]
+      rw [hstep]
+      exact ih _ _ (by omega)
+
+end
+
+end ScVerif.C17
